@@ -105,6 +105,8 @@ CHECKS.update({
             "Liveness attacked as bounded liveness on a harness-owned clock: quiescence detection after every event (wedged = nothing outstanding), rejoin attempt within the documented backoff after each failed group request, and after faults cease stable membership + acknowledged heartbeat + consumption within a stated virtual-time horizon; non-Kafka processor errors must surface on start().", GRP_NOTE, "DESIGN.md 3/C17"),
 })
 
+TRACEFUZZ = {"C06", "C10", "C13", "C16", "C19", "C20"}
+
 NOT_YET = {
 }
 
@@ -117,6 +119,8 @@ def main():
         if pid not in CHECKS:
             continue
         engine, technique, text, note, ref = CHECKS[pid]
+        if pid in TRACEFUZZ:
+            technique += "; plus coverage-guided fuzzing of the same trace driver (atheris/libFuzzer mutating Hypothesis' choice sequence, oracle inside the target: fuzz/traces.py)"
         checks.append(
             {
                 "property_id": pid,
